@@ -322,6 +322,13 @@ def rule_r7(p, res):
             rd = cfgmod.reaching_defs(gfv, d, tgt.value.id, st)
             ok = bool(rd) and all(kind == "assign" and any(v is z for z in zeros) for kind, v, _ in rd)
     r.check(ok, fv, store[0] if store else fv.node, "from_vector must write the masked pixels into a zero-initialised array (zero elsewhere)")
+    for z in zeros:
+        dt = kwarg(z, "dtype")
+        if dt is None:
+            r.violation(fv, z, "the buffer that receives the vector is allocated with numpy's default dtype: from_vector(v).as_vector() would not return v for other dtypes")
+        else:
+            r.check(("param:" + fv.params[1]) in leaves(dt, d), fv, z, "the buffer that receives the vector takes its dtype from `%s`, not from the vector: the values are silently cast and "
+                    "from_vector(v).as_vector() != v" % norm(dt), {"function": fv.short, "buffer_dtype": norm(dt)})
     r.instance(av)
     r.instance(fi)
     for f in (av, fv, fi):
@@ -366,6 +373,7 @@ WITNESSES = [
     Witness("C05.W9", "menpo/image/boolean.py", "BooleanImage.from_vector",
             "if self.has_landmarks:\n        mask.landmarks = self.landmarks", "if copy:\n        mask.landmarks = self.landmarks",
             rule="C05.R5", construct="BooleanImage.from_vector"),
+    Witness("C05.W10", "menpo/image/masked.py", "MaskedImage.from_vector", "dtype=vector.dtype", "dtype=self.pixels.dtype", rule="C05.R7", construct="MaskedImage.from_vector", note="seeded change C05-A"),
     Witness("C05.T1", "menpo/transform/homogeneous/similarity.py", "Similarity._from_vector_inplace",
             "self._set_h_matrix(homog, skip_checks=True, copy=False)", "self._set_h_matrix(homog, copy=False, skip_checks=True)", kind="T"),
     Witness("C05.T2", "menpo/shape/pointcloud.py", "PointCloud._as_vector",
